@@ -23,6 +23,7 @@ import (
 	"github.com/AdguardTeam/AdGuardDNS/internal/profiledb/internal"
 	"github.com/AdguardTeam/AdGuardDNS/internal/profiledb/internal/filecachepb"
 	"github.com/AdguardTeam/golibs/logutil/slogutil"
+	"google.golang.org/protobuf/proto"
 	"pgregory.net/rapid"
 	"verif.local/harness/vstat"
 )
@@ -132,7 +133,9 @@ func TestVerifC14rtRestart(t *testing.T) {
 		"used-before-store", "used-before-store-with-domain-rules", "device-used-before-store",
 		"restart-after-near-miss-change", "start-from-unreadable-file", "start-from-other-version-file", "store-failed", "zoned-ipv6-key",
 		"restart-from-cache-without-devices", "restart-from-cache-without-profiles", "restarted-db-first-refresh-full",
-		"restarted-db-first-refresh-incremental", "auto-device-created-after-restart")
+		"restarted-db-first-refresh-incremental", "auto-device-created-after-restart",
+		"restart-with-one-unconvertible-profile-among-convertible-ones", "restart-with-all-profiles-unconvertible",
+		"unconvertible-by-time-zone", "unconvertible-by-blocking-mode", "unconvertible-by-custom-ip", "restart-with-unconvertible-device")
 	st.Finish(t)
 	vc14rtNeedZones(t)
 
@@ -559,6 +562,138 @@ func TestVerifC14rtRestart(t *testing.T) {
 				}
 
 				stor.auto = nil
+			}
+
+			// A cache file in which some records cannot be converted back by the
+			// process that restarts (a pause-schedule time zone its time-zone
+			// database does not know: the file stores the zone NAME; a missing
+			// or malformed blocking mode; a malformed device address).  However
+			// the database treats such a file, after its own first refresh from
+			// a backend on which nothing changed since the file was written it
+			// must answer every lookup as the backend state says.
+			if len(world.Profs) > 0 && rapid.IntRange(0, 2).Draw(t, "unconvertible") == 0 {
+				b, rerr := os.ReadFile(path)
+				if rerr != nil {
+					fail("harness: reading the cache file: %v", rerr)
+				}
+
+				fc := &filecachepb.FileCache{}
+				if uerr := proto.Unmarshal(b, fc); uerr != nil || len(fc.Profiles) != len(world.Profs) {
+					fail("harness: decoding the cache file: %v (%d profiles)", uerr, len(fc.Profiles))
+				}
+
+				nBad := 1
+				switch rapid.SampledFrom([]string{"one", "one", "one", "several", "all", "device"}).Draw(t, "unconvertibleHowMany") {
+				case "several":
+					nBad = rapid.IntRange(1, len(fc.Profiles)).Draw(t, "unconvertibleN")
+				case "all":
+					nBad = len(fc.Profiles)
+				case "device":
+					nBad = 0
+				}
+
+				var what []string
+				if nBad == 0 && len(fc.Devices) > 0 {
+					d := fc.Devices[rapid.IntRange(0, len(fc.Devices)-1).Draw(t, "badDevice")]
+					d.LinkedIp = []byte{1, 2, 3, 4, 5}
+					what = append(what, fmt.Sprintf("device %q: malformed linked ip", d.DeviceId))
+					cl["restart-with-unconvertible-device"] = true
+				} else if nBad == 0 {
+					nBad = 1
+				}
+
+				order := rapid.Permutation(fc.Profiles).Draw(t, "unconvertibleWhich")
+				for _, pp := range order[:nBad] {
+					switch way := rapid.SampledFrom([]string{"time-zone", "time-zone", "blocking-mode", "custom-ip"}).Draw(t, "unconvertibleWay"); way {
+					case "time-zone":
+						tz := rapid.SampledFrom([]string{"Test/Dropped_Zone", "Nowhere/Atlantis", "../etc/localtime"}).Draw(t, "unknownZone")
+						if pp.FilterConfig.Parental.PauseSchedule == nil {
+							pp.FilterConfig.Parental.PauseSchedule = &filecachepb.FilterConfig_Schedule{Week: &filecachepb.FilterConfig_WeeklySchedule{}}
+						}
+
+						pp.FilterConfig.Parental.PauseSchedule.TimeZone = tz
+						what = append(what, fmt.Sprintf("profile %q: schedule time zone %q", pp.ProfileId, tz))
+						cl["unconvertible-by-time-zone"] = true
+					case "blocking-mode":
+						pp.BlockingMode = nil
+						what = append(what, fmt.Sprintf("profile %q: no blocking mode", pp.ProfileId))
+						cl["unconvertible-by-blocking-mode"] = true
+					default:
+						pp.BlockingMode = &filecachepb.Profile_BlockingModeCustomIp{BlockingModeCustomIp: &filecachepb.BlockingModeCustomIP{Ipv4: [][]byte{{1, 2, 3, 4, 5}}}}
+						what = append(what, fmt.Sprintf("profile %q: malformed custom blocking ip", pp.ProfileId))
+						cl["unconvertible-by-custom-ip"] = true
+					}
+				}
+
+				b, merr := proto.Marshal(fc)
+				if merr == nil {
+					merr = os.WriteFile(path, b, 0o600)
+				}
+
+				if merr != nil {
+					fail("harness: rewriting the cache file: %v", merr)
+				}
+
+				hist = append(hist, fmt.Sprintf("cache file now holds records this process cannot convert: %q; another restart and its first refresh", what))
+				db3 := newDB()
+				seq++
+				resp3 := time.Unix(int64(1_700_000_000+seq), 0)
+				var reqTime time.Time
+				calls := 0
+				stor.next = func(req *StorageProfilesRequest) (*StorageProfilesResponse, error) {
+					calls++
+					reqTime = req.SyncTime
+					resp := &StorageProfilesResponse{SyncTime: resp3}
+					if req.SyncTime.IsZero() {
+						resp.Profiles, resp.Devices = world.build(est)
+					}
+
+					return resp, nil
+				}
+				err := db3.Refresh(ctx)
+				stor.next = nil
+				if err != nil || calls != 1 {
+					fail("database restarted from a file with unconvertible records: first Refresh: %v (%d storage calls)", err, calls)
+				}
+
+				if !reqTime.IsZero() && len(db3.profiles) != len(world.Profs) {
+					fail("the database restarted from a file with unconvertible records (%q) knows %d of the backend's %d profiles but asked only for the changes since %v: what is unchanged since then stays unknown\nsnapshot: %s",
+						what, len(db3.profiles), len(world.Profs), reqTime, vc14rtDescribe(world))
+				}
+
+				for _, k := range keys {
+					p3, d3, err3 := vc14rtLookup(ctx, db3, k)
+					check("database restarted from a file with unconvertible records, after its first refresh", k, p3, d3, err3)
+					if k.Kind == "human" && err3 != nil && errors.Is(err3, ErrProfileNotFound) != (world.prof(k.Prof) == nil) {
+						fail("database restarted from a file with unconvertible records (%q), after its first refresh: %s: %v, but the profile exists on the backend: %t\nsnapshot: %s",
+							what, k, err3, world.prof(k.Prof) != nil, vc14rtDescribe(world))
+					}
+				}
+
+				switch {
+				case cl["restart-with-unconvertible-device"] && nBad == 0:
+				case nBad == 1 && len(fc.Profiles) > 1:
+					cl["restart-with-one-unconvertible-profile-among-convertible-ones"] = true
+				case nBad == len(fc.Profiles):
+					cl["restart-with-all-profiles-unconvertible"] = true
+				default:
+					cl["restart-with-several-unconvertible-profiles"] = true
+				}
+
+				if reqTime.IsZero() {
+					cl["unconvertible-cache-then-full-sync"] = true
+				}
+
+				// If that refresh was a full one, the file is whole again; put
+				// it back in any case so that the history continues from a
+				// good file with the running database's data.
+				if serr := filecachepb.New(logger, path, est).Store(ctx, func() *internal.FileCache {
+					ps, ds := world.build(est)
+
+					return &internal.FileCache{SyncTime: respTime, Profiles: ps, Devices: ds, Version: internal.FileCacheVersion}
+				}()); serr != nil {
+					fail("harness: restoring the cache file: %v", serr)
+				}
 			}
 
 			if rapid.Bool().Draw(t, "adopt") {
